@@ -564,6 +564,9 @@ def _get_validity_mask(
         p_mask,
         abs_valid)
 
+    # cannot ask for more markers than there are genes
+    n_valid = min(n_valid, n_genes)
+
     if validity_mask.sum() < n_valid:
         sorted_dex = np.argsort(penetrance_dist)
         cutoff = penetrance_dist[sorted_dex[n_valid-1]]
